@@ -148,7 +148,12 @@ func TypeToValue(t *sysl.Type) *sysl.Value {
 	case *sysl.Type_OneOf_:
 		unionSet := MakeValueSet()
 		for _, embeddedType := range x.OneOf.Type {
-			AppendItemToValueList(unionSet.GetSet(), MakeValueString(embeddedType.GetTypeRef().Ref.Path[0]))
+			// a member is named by its type; a primitive member as primitives are elsewhere ("STRING")
+			_, name := syslutil.GetTypeDetail(embeddedType)
+			if p := embeddedType.GetTypeRef().GetRef().GetPath(); len(p) > 0 {
+				name = p[0]
+			}
+			AppendItemToValueList(unionSet.GetSet(), MakeValueString(name))
 		}
 		AddItemToValueMap(m, "fields", unionSet)
 	case *sysl.Type_Sequence:
